@@ -4,6 +4,7 @@ import Gama.Model.AcordAzimuth
 import Gama.Model.AcordHdiffVector
 import Gama.Model.AcordZderived
 import Gama.Model.AcordIntersection
+import Gama.Model.Acord2
 import Gama.Model.PointId
 import Gama.Model.LinTypes
 open Gama Gama.Proto Gama.Cogo
@@ -77,6 +78,7 @@ structure ACase where
   ids : List String := []                                  -- order of first appearance
   pts : List (PID × LP Float × Bool × Bool) := []
   od : List (Cluster PID Float) := []                      -- reversed; the open cluster is the head
+  later : List (PID × Float) := []                         -- `N id z`: heights published between two executions
 
 def ACase.note (c : ACase) (id : String) : ACase :=
   if c.ids.contains id then c else { c with ids := c.ids ++ [id] }
@@ -99,7 +101,19 @@ def parseAcord : Nat → List String → ACase → Option ACase
                            bxy != "0", bz != "0"⟩
       parseAcord n rest { (c.note id) with pts := c.pts ++ [(pid id, p, axy != "0", az != "0")] }
     | _, _, _ => none
+  | n + 1, "N" :: id :: z :: rest, c =>
+    match num? z with
+    | some z => parseAcord n rest { (c.note id) with later := c.later ++ [(pid id, z)] }
+    | none => none
   | n + 1, "S" :: st :: rest, c => parseAcord n rest { (c.note st) with od := .standpoint (pid st) [] :: c.od }
+  | n + 1, "ang" :: f :: bs :: fs :: v :: rest, c =>
+    -- an Angle is no Azimuth / Distance / S_Distance / Z_Angle: the four strategies of this parser pass it by
+    match num? v with
+    | some _ =>
+      match (((c.note f).note bs).note fs).addSp (.other (pid f) (pid bs)) with
+      | some c => parseAcord n rest c
+      | none => none
+    | none => none
   | n + 1, "H" :: rest, c => parseAcord n rest { c with od := .hdiffs [] :: c.od }
   | n + 1, "V" :: rest, c => parseAcord n rest { c with od := .vectors [] :: c.od }
   | n + 1, k :: f :: t :: v :: rest, c =>
@@ -181,6 +195,7 @@ def parseInter : Nat → List String → ICase → Option ICase
                            bxy != "0", bz != "0"⟩
       parseInter n rest { (c.note id) with pts := c.pts ++ [(pid id, p, axy != "0", az != "0")] }
     | _, _, _ => none
+  | n + 1, "N" :: id :: _ :: rest, c => parseInter n rest (c.note id)
   | n + 1, "S" :: st :: rest, c => parseInter n rest { (c.note st) with cls := ⟨none, []⟩ :: c.cls, sp := true :: c.sp }
   | n + 1, "H" :: rest, c => parseInter n rest { c with cls := ⟨none, []⟩ :: c.cls, sp := false :: c.sp }
   | n + 1, "V" :: rest, c => parseInter n rest { c with cls := ⟨none, []⟩ :: c.cls, sp := false :: c.sp }
@@ -221,7 +236,7 @@ def parseInter : Nat → List String → ICase → Option ICase
         | none => none
   | _, _, _ => none
 
-def interOp (reps : Nat) (cs : Lin.CS) (rh : Bool) (rest : List String) : String :=
+def interOp (firstOnly : Bool) (reps : Nat) (cs : Lin.CS) (rh : Bool) (rest : List String) : String :=
   match parseInter (rest.length + 1) rest {} with
   | none => "bad-op"
   | some c =>
@@ -234,8 +249,15 @@ def interOp (reps : Nat) (cs : Lin.CS) (rh : Bool) (rest : List String) : String
       | some q => q.2.2.1 == p.2.2.1 && q.2.2.2 == p.2.2.2 && q.2.1.bxy == p.2.1.bxy && q.2.1.bz == p.2.1.bz | none => false)
     let keys := Acord.dedup (c.pts.map (·.1))
     let st0 : AiState PID Float := ⟨pd, cls.map (·.ori), Acord.dedup (Acord.missingXY last), salDefault⟩
-    let r := (List.range reps).foldl (fun (as : AiAlg × AiState PID Float) _ =>
-      aiExecute 64 PointId.lt keys c.extra xN cls as.1 as.2) ({}, st0)
+    -- `intersection-first` (model side only, used by the plugin to tell whether solve_insertion - which has no model -
+    -- got its turn before the model solved a point): ONLY the first `approxy_.calculation()` of execute()
+    let r : AiAlg × AiState PID Float :=
+      if firstOnly then
+        let q := acCalculation 64 PointId.lt keys c.extra st0.sal (copyHorizontal cls) ⟨st0.pd, st0.oris⟩
+        ({}, { st0 with pd := q.pd, oris := q.oris })
+      else
+        (List.range reps).foldl (fun (as : AiAlg × AiState PID Float) _ =>
+          aiExecute 64 PointId.lt keys c.extra xN cls as.1 as.2) ({}, st0)
     let stA : Acord.St PID Float := ⟨r.2.pd, r.2.missXY, Acord.dedup (Acord.missingZ last), []⟩
     let oriLines := ((List.range cls.length).zip (sp.zip r.2.oris)).filterMap (fun x =>
       if x.2.1 then
@@ -251,7 +273,11 @@ def acordOp (ts : List String) : String :=
   match ts with
   | "intersection" :: reps :: cs :: rh :: rest =>
     match reps.toNat?, cs.toNat? >>= Lin.CS.ofNat? with
-    | some reps, some cs => interOp reps cs (rh != "0") rest
+    | some reps, some cs => interOp false reps cs (rh != "0") rest
+    | _, _ => "bad-op"
+  | "intersection-first" :: reps :: cs :: rh :: rest =>
+    match reps.toNat?, cs.toNat? >>= Lin.CS.ofNat? with
+    | some reps, some cs => interOp true reps cs (rh != "0") rest
     | _, _ => "bad-op"
   | alg :: reps :: cs :: rh :: rest =>
     match reps.toNat?, cs.toNat? >>= Lin.CS.ofNat?, parseAcord (rest.length + 1) rest {} with
@@ -272,8 +298,16 @@ def acordOp (ts : List String) : String :=
             azExecute 64 PointId.lt xN od as.1 as.2) (AzAlg.fresh, st0)
           some ([], r.2, r.1.completed)
         | "hdiff" =>
-          (List.range reps).foldlM (fun (as : HdAlg PID Float × St PID Float) _ =>
-            hdExecute fuel od as.1 as.2) (HdAlg.fresh, st0) |>.map (fun r => ([], r.2, r.1.completed))
+          -- `completed k` after every execution (what Acord2::execute looks at after the round); the `N` records are
+          -- heights another strategy publishes between the first and the second execution
+          (List.range reps).foldlM (fun (x : List String × HdAlg PID Float × St PID Float) k =>
+            (hdExecute fuel od x.2.1 x.2.2).map (fun r =>
+              let st := if k == 0 then
+                  c.later.foldl (fun (s : St PID Float) nz =>
+                    { s with pd := s.pd.upd nz.1 ((s.pd nz.1).setZ nz.2), missZ := Acord.erase s.missZ nz.1 }) r.2
+                else r.2
+              (x.1 ++ [s!"completed {if r.1.completed then 1 else 0}"], r.1, st))) ([], HdAlg.fresh, st0)
+            |>.map (fun r => (r.1, r.2.2, r.2.1.completed))
         | "vector" =>
           (List.range reps).foldlM (fun (as : VecAlg PID Float × St PID Float) _ =>
             vecExecute fuel od as.1 as.2) (VecAlg.fresh, st0) |>.map (fun r => ([], r.2, r.1.completed))
@@ -291,6 +325,46 @@ def acordOp (ts : List String) : String :=
     | _, _, _ => "bad-op"
   | _ => "bad-op"
 
+/-! ### `acord2 …`: Acord2::execute (Gama/Model/Acord2.lean) over the five modelled strategies -/
+
+def hasObs (od : List (Cluster PID Float)) (p : Obs PID Float → Bool) : Bool :=
+  od.any (fun c => match c with | .standpoint _ obs => obs.any p | _ => false)
+
+def acord2Op (ts : List String) : String :=
+  match ts with
+  | cs :: rh :: rest =>
+    match cs.toNat? >>= Lin.CS.ofNat?, parseAcord (rest.length + 1) rest {}, parseInter (rest.length + 1) rest {} with
+    | some cs, some c, some ci =>
+      if !c.later.isEmpty then "bad-op" else
+      let od := c.od.reverse
+      let cls := ci.cls.reverse
+      let xN : Float := Lin.xNorthAngle cs (rh != "0")
+      let pd : PD PID Float := fun i => match c.pts.reverse.find? (fun p => decide (p.1 = i)) with
+        | some p => p.2.1 | none => LP.unset
+      let last := c.pts.filter (fun p => match c.pts.reverse.find? (fun q => decide (q.1 = p.1)) with
+        | some q => q.2.2.1 == p.2.2.1 && q.2.2.2 == p.2.2.2 && q.2.1.bxy == p.2.1.bxy && q.2.1.bz == p.2.1.bz | none => false)
+      let keys := dedup (c.pts.map (·.1))
+      -- the flags the constructor of Acord2 computes
+      let hasAz := hasObs od (fun o => match o with | .azimuth .. => true | _ => false)
+      let slope := hasObs od (fun o => match o with | .zangle .. => true | .sdistance .. => true | _ => false)
+      let hasHd := od.any (fun c => match c with | .hdiffs _ => true | _ => false)
+      let hasVec := od.any (fun c => match c with | .vectors _ => true | _ => false)
+      let hasSp := od.any (fun c => match c with | .standpoint .. => true | _ => false)
+      let fuelIn := 2 * (c.ids.length + 2) + 64
+      let algs := modelledAlgs fuelIn PointId.lt keys ci.extra xN od cls hasAz hasHd slope hasVec hasSp
+      let g0 : G PID Float (Priv PID Float (AiPriv Float)) :=
+        ⟨⟨pd, dedup (missingXY last), dedup (missingZ last), []⟩, [],
+         ⟨AzAlg.fresh, HdAlg.fresh, VecAlg.fresh, ZdAlg.fresh, ⟨{}, cls.map (fun (x : Inter.Cl PID Float) => x.ori), salDefault⟩⟩⟩
+      let run (fuel : Nat) := execute slope id fuel algs g0
+      let full := run (Acord.measure g0 + 1)
+      if !full.finished then "fuel" else
+      let rl := (List.range full.rounds).map (fun k =>
+        let g := (run k).state
+        s!"r {k + 1} {g.st.missXY.length} {g.st.missZ.length}")
+      "\n".intercalate (rl ++ [s!"rounds {full.rounds}"] ++ showPts c.ids full.state.st)
+    | _, _, _ => "bad-op"
+  | _ => "bad-op"
+
 end AcordStream
 
 def step (_ : Unit) (line : String) : Unit × String :=
@@ -299,6 +373,7 @@ def step (_ : Unit) (line : String) : Unit × String :=
   | [] => ((), "")
   | "refine" :: rest => ((), refineOp rest)
   | "acord" :: rest => ((), acordOp rest)
+  | "acord2" :: rest => ((), acord2Op rest)
   | op :: rest =>
     match rest.mapM num? with
     | none => ((), "bad-op")
